@@ -405,6 +405,16 @@ class SymReal:
     def __float__(self):
         raise Unsupported('a symbolic value was converted to a Python float (unsupported library call)')
 
+    def __bool__(self):
+        # truth value of a float: non-zero (NaN is true); forks the path like any other test
+        return CTX.branch(z3.Or(self.nan, self.val != 0))
+
+    def astype(self, dt, *a, **k):
+        # numpy scalars have astype; on a symbolic real a conversion to a float type is the identity
+        if dt in (float, _np.float64, 'float64', 'f8') or (isinstance(dt, type) and issubclass(dt, _np.floating)):
+            return self
+        raise Unsupported('astype(%r) on a symbolic scalar' % (dt,))
+
     def __repr__(self):
         return 'SymReal(%s)' % z3.simplify(self.val)
 
